@@ -89,9 +89,10 @@ def run_selftests(prop, root, jobs=16, run=None):
     t0 = time.time()
     if not variants:
         print("%s thorough: no self-test variants registered" % prop)
-        return 0
-    with multiprocessing.Pool(min(jobs, len(variants))) as pool:
-        results = pool.map(_one, [(prop, root, v) for v in variants])
+    results = []
+    if variants:
+        with multiprocessing.Pool(min(jobs, len(variants))) as pool:
+            results = pool.map(_one, [(prop, root, v) for v in variants])
     failed = [r for r in results if r["status"] == "FAILED"]
     skipped = [r for r in results if r["status"] == "skipped"]
     for r in results:
@@ -106,6 +107,27 @@ def run_selftests(prop, root, jobs=16, run=None):
     print("%s thorough: %d variants, %d ok, %d failed, %d skipped, %.1fs"
           % (prop, len(results), len(results) - len(failed) - len(skipped),
              len(failed), len(skipped), time.time() - t0))
+    # validate the regex engine against CPython's re (where the property's
+    # rules use it)
+    engine = None
+    try:
+        from selftest import enginecheck
+        from zcstatic.model import Model
+        n_cmp, disagreements = enginecheck.run(prop, Model(root))
+        if n_cmp:
+            engine = {"comparisons_with_re": n_cmp,
+                      "disagreements": [list(map(str, d))
+                                        for d in disagreements[:10]]}
+            print("%s thorough: regex engine vs re: %d comparisons, %d "
+                  "disagreements" % (prop, n_cmp, len(disagreements)))
+            if disagreements:
+                print("ANALYSIS-ERROR property=%s the regex engine disagrees "
+                      "with CPython's re: %s" % (prop, disagreements[:3]))
+                failed.append({"id": "engine-vs-re"})
+    except Exception as e:  # pragma: no cover
+        print("ANALYSIS-ERROR property=%s engine validation crashed: %s"
+              % (prop, e))
+        failed.append({"id": "engine-vs-re"})
     # extend the evidence file written by the quick pass
     try:
         path = os.path.join(HERE, "evidence", prop + ".json")
@@ -123,6 +145,8 @@ def run_selftests(prop, root, jobs=16, run=None):
             "results": [{"id": r["id"], "expect": r["expect"],
                          "status": r["status"], "rules": r.get("rules")}
                         for r in results]}
+        if engine:
+            ev["coverage"]["engine_validation"] = engine
         ev["wall_s"] = round(ev["wall_s"] + time.time() - t0, 3)
         with open(path, "w") as f:
             json.dump(ev, f, indent=1)
